@@ -535,7 +535,7 @@ impl<'a> Ctx<'a> {
     /// compare a produced Zoned with the instant the model wants
     fn same(&self, sec: &str, op: &str, vcls: &str, case: &dyn Fn() -> String, v: ZView, w: i128) {
         if v.ts != w {
-            self.r.viol(sec, &format!("{}/{}", op, vcls), case(), format!("jiff {} model {}", conv::fmt_ns(v.ts), conv::fmt_ns(w)));
+            self.r.viol(sec, &format!("{}/{}", op, vcls), case(), format!("jiff {} ({}) model {} ({})", conv::fmt_ns(v.ts), fmt_civil(v.civil), conv::fmt_ns(w), fmt_civil(self.local(w))));
             return;
         }
         if !v.same_tz {
